@@ -444,7 +444,9 @@ def r13e(rep, F):
     if qdecl is not None:
         # queue == result: duplicates must be dropped in the marked branch
         el = br.get('else')
-        ok = bool(el) and any(c.get('callee') == 'std::vector::erase' and key(fn, c['ch'][0]) == qdecl for c in fn.walk(el))
+        swap_pop = bool(el) and any(c.get('callee') == 'std::vector::pop_back' and key(fn, c['ch'][0]) == qdecl for c in fn.walk(el)) and \
+            any(c.get('callee') == 'std::vector::back' and key(fn, c['ch'][0]) == qdecl for c in fn.walk(el))
+        ok = bool(el) and (any(c.get('callee') == 'std::vector::erase' and key(fn, c['ch'][0]) == qdecl for c in fn.walk(el)) or swap_pop)
         rep.add('R13e', label(fn), 'duplicates-dropped', ok, fn.where(br),
                 'a dequeued cell that is already marked is erased from the component vector' if ok else
                 'the component vector doubles as the work queue but already-marked entries are not removed: on a cycle a '
@@ -474,6 +476,17 @@ def r13e(rep, F):
                         why = 'index update not constant'
                     else:
                         delta += d.get(1, 0) * (1 if x['op'] == '+=' else -1)
+                elif ((x['k'] == 'BinaryOperator' and x.get('op') == '=') or (x['k'] == 'CXXOperatorCallExpr' and x.get('oop') == '=')) and \
+                        any(c.get('callee') == 'std::vector::back' and key(fn, c['ch'][0]) == qdecl for c in fn.walk(x['ch'][1])):
+                    # swap-and-pop: q[X] = q.back(); (q.pop_back() follows) -- the slot overwritten is the one that loses its entry
+                    t_ = fn.strip(x['ch'][0])
+                    a = lin.lin(fn, t_['ch'][1]) if t_ is not None and t_.get('oop') == '[]' and key(fn, t_['ch'][0]) == qdecl else None
+                    if a is None or a.get(ikey) != 1 or set(a) - {ikey, 1}:
+                        why = 'the slot overwritten with the last entry is not q[index + constant]'
+                    else:
+                        erased = delta + a.get(1, 0)
+                elif x.get('callee') == 'std::vector::pop_back' and key(fn, x['ch'][0]) == qdecl:
+                    pass
                 elif x.get('callee') == 'std::vector::erase' and key(fn, x['ch'][0]) == qdecl:
                     pos_ = [y for y in fn.walk(args(fn, x)[0]) if y['k'] == 'CXXOperatorCallExpr' and y.get('oop') in ('+', '-')]
                     a = lin.lin(fn, pos_[0]['id']) if pos_ else None
